@@ -114,6 +114,23 @@ class Infeasible(Exception):
     pass
 
 
+class Poison:
+    """What a module- or class-level name is bound to when its defining expression is outside the subset: the definition does not
+    stop the run, every use of the name does (Unsupported, so the unit that uses it falls back to the bounded stand-in)."""
+
+    def __init__(self, reason):
+        self.reason = reason
+
+    def __repr__(self):
+        return f"<poison: {self.reason}>"
+
+
+def unpoisoned(v):
+    if isinstance(v, Poison):
+        raise Unsupported(v.reason)
+    return v
+
+
 class PathEnd(Exception):
     """The path is cut here (loop back-edge after invariant check, yield, ...)."""
 
@@ -221,7 +238,7 @@ class ClassVal:
             mro = mro[mro.index(after) + 1:]
         for c in mro:
             if name in c.ns:
-                return c.ns[name], c
+                return unpoisoned(c.ns[name]), c
         return None, None
 
     def is_subclass_of(self, other):
